@@ -565,7 +565,7 @@ variable {α : Type}
 
 theorem finish_subview [Truncate α] {d : DM α} (hw : d.WF) {rowOne colOne : Bool} {rs cs : List Nat}
     (hrs : rs.Nodup) (hcs : cs.Nodup) (hrr : ∀ p ∈ rs, p < d.alts.length) (hcr : ∀ p ∈ cs, p < d.crits.length)
-    (hform : (!rowOne && colOne) = false) {d' : DM α} (h : finish attach d rowOne colOne rs cs = .ok d') :
+    {d' : DM α} (h : finish attach false d rowOne colOne rs cs = .ok d') :
     SubView d' d ∧ d'.alts = gather d.alts rs ∧ d'.crits = gather d.crits cs := by
   unfold finish at h
   split at h
@@ -573,24 +573,8 @@ theorem finish_subview [Truncate α] {d : DM α} (hw : d.WF) {rowOne colOne : Bo
   · split at h
     · exact attach_subview hw hrs hcs hrr hcr (cutOf_restore d hw rs cs hcs hcr upcast upcast_length) h
     · split at h
-      · rename_i h1 h2 h3
-        simp_all
       · exact attach_subview hw hrs hcs hrr hcr (cutOf_take d hw rs cs hcs hcr) h
-
-/-- the `(rows, single column)` form: if it answers at all, every selected alternative label is also a
-criterion label, and the answer is the transposed thing: the criterion became the only alternative -/
-theorem finish_colSeries [Truncate α] {d : DM α} {rs cs : List Nat} {d' : DM α}
-    (h : finish attach d false true rs cs = .ok d') :
-    d'.alts = gather d.crits cs ∧ d'.crits = gather d.alts rs ∧ ∀ a ∈ gather d.alts rs, a ∈ d.crits := by
-  simp only [finish, Bool.false_and, Bool.false_eq_true, if_false, if_true] at h
-  obtain ⟨o, w, ho, _, rfl⟩ := attach_ok h
-  refine ⟨rfl, rfl, ?_⟩
-  intro a ha
-  by_contra hna
-  have : (colSeriesFrame d rs cs).columns.mapM (objOf d) = none :=
-    mapM_none_of_mem _ _ a ha (lookup_of_not_mem hna)
-  rw [this] at ho
-  cases ho
+      · exact attach_subview hw hrs hcs hrr hcr (cutOf_take d hw rs cs hcs hcr) h
 
 theorem mapM_ofInt_toInt (os : List Obj) : (os.map Obj.toInt).mapM Obj.ofInt? = some os := by
   induction os with
